@@ -1032,17 +1032,212 @@ func (g *gen) randPayload() parg {
 	}
 }
 
+// ---------- abrupt completion of ToNumber / ToString ----------
+var throwers = []string{
+	"{toString: function () { throw new RangeError('c13') }}",
+	"Object.create(null)",
+	"{valueOf: function () { return {} }, toString: function () { throw new RangeError('c13') }}",
+	"{valueOf: function () { return {} }, toString: function () { return {} }}",
+	"{valueOf: function () { throw new RangeError('c13') }, toString: function () { throw new EvalError('c13') }}",
+}
+
+var globalFns = map[int]string{100: "isNaN", 101: "isFinite", 102: "parseInt", 103: "parseFloat", 104: "escape", 105: "unescape",
+	106: "encodeURI", 107: "encodeURIComponent", 108: "decodeURI", 109: "decodeURIComponent"}
+
+func fnText(fn int) string {
+	if fn >= 100 {
+		return globalFns[fn]
+	}
+	return "Math." + fnNames[fn]
+}
+
+// fn(args): argument k throws while converting (kind), the others log their conversion
+func (g *gen) throwCase(fn int, vals []float64, k, kind int) {
+	var b strings.Builder
+	b.WriteString("var __log = []; function __L(i, v) { return {valueOf: function () { __log.push(i); return v }, toString: function () { __log.push(i); return '1' }} } ")
+	b.WriteString(fnText(fn) + "(")
+	cq := make([]string, len(vals))
+	for i, v := range vals {
+		if i > 0 {
+			b.WriteString(", ")
+		}
+		if i == k {
+			b.WriteString("(" + throwers[kind] + ")")
+			cq[i] = Cdouble(1)
+		} else {
+			fmt.Fprintf(&b, "__L(%d, %s)", i, JSNum(v))
+			cq[i] = Cdouble(v)
+		}
+	}
+	b.WriteString(")")
+	src := b.String()
+	o := RunJS(g.vm, src)
+	cls := ErrClass(o)
+	nlog := "(-1)"
+	lo := RunJS(g.vm, "__log.join('') + ':' + __log.length")
+	order := "?"
+	if lo.Panic == nil && lo.Err == nil {
+		t := lo.Val.String()
+		if i := strings.LastIndex(t, ":"); i >= 0 {
+			order, nlog = t[:i], t[i+1:]
+			idx := 0
+			for _, ch := range order { // left to right, skipping the thrower
+				if idx == k {
+					idx++
+				}
+				if int(ch-'0') != idx {
+					nlog = "(-2)"
+				}
+				idx++
+			}
+		}
+	}
+	txt := "no exception"
+	if o.Panic != nil {
+		txt = fmt.Sprintf("!panic %v", o.Panic)
+	} else if o.Err != nil {
+		txt = "threw " + o.Err.Error()
+	} else {
+		txt = "returned " + o.Val.String()
+	}
+	g.env.Add(fmt.Sprintf("CThrow %d %s %d %d (%d, %s)", fn, Clist(cq), k, kind, cls, nlog),
+		fmt.Sprintf("throw %s -> %s ; conversions logged: %q", src, txt, order), "throw:"+fnText(fn), true)
+}
+
+func (g *gen) throwSweeps() {
+	nan := math.NaN()
+	fns := append([]int{}, allUnary...)
+	fns = append(fns, 4, 12, 10, 11, 17, 100, 101, 102, 103, 104, 105, 106, 107, 108, 109)
+	for _, fn := range fns {
+		n := nominalArity(fn) + 1
+		if fn >= 100 {
+			n = 2
+			if fn == 102 {
+				n = 3
+			}
+		}
+		if fn == 10 || fn == 11 {
+			n = 3
+		}
+		for kind := range throwers {
+			for k := 0; k < n; k++ {
+				vals := make([]float64, n)
+				for i := range vals {
+					vals[i] = float64(i + 2)
+				}
+				g.throwCase(fn, vals, k, kind)
+			}
+			g.throwCase(fn, []float64{1}, 0, kind)
+		}
+	}
+	for _, fn := range []int{10, 11, 4} { // a NaN before the thrower (finding C13-tonumber-skipped)
+		for kind := range throwers {
+			g.throwCase(fn, []float64{nan, 1}, 1, kind)
+			g.throwCase(fn, []float64{1, nan, 1}, 2, kind)
+		}
+	}
+}
+
+// ---------- pow: subnormal results, the overflow boundary, x^n overflowing while x^-n is representable ----------
+func (g *gen) powCase(x, y float64) { g.mathCase(12, []jarg{numArg(x), numArg(y)}) }
+
+func (g *gen) powSweeps() {
+	for _, y := range []float64{-1021, -1022, -1023, -1024, -1025, -1026, -1050, -1072, -1073, -1074, -1075, -1076, -1077, -1100, -2000, 1022, 1023, 1024, 1025, 2000,
+		-1073.5, -1074.5, -1075.5, -1021.5, -1022.5, -1050.5, 1023.5, 1024.5, 1022.5, -0.5, 0.5, 1.5, -1.5} {
+		g.powCase(2, y)
+		g.powCase(0.5, -y)
+		g.powCase(-2, y)
+		g.powCase(4, y/2)
+		g.powCase(0.25, -y/2)
+	}
+	for _, y := range []float64{-60, -63, -64, -65, -66, -67, -68, 63, 64, 65} {
+		g.powCase(65536, y)
+		g.powCase(1/65536.0, -y)
+	}
+	for y := 300.0; y <= 326; y++ {
+		g.powCase(10, -y)
+		g.powCase(10, y)
+		g.powCase(0.1, y)
+		g.powCase(0.1, -y)
+		g.powCase(-10, -y)
+		g.powCase(10, -y-0.5)
+		g.powCase(10, y+0.5)
+		g.powCase(100, -y/2)
+	}
+	for y := 640.0; y <= 682; y += 3 {
+		g.powCase(3, -y)
+		g.powCase(3, y)
+		g.powCase(1/3.0, y)
+		g.powCase(1.5, -y*2.7)
+		g.powCase(3, -y-0.5)
+	}
+	for _, y := range []float64{31, 32, 33, 34, 35, -33, -34} { // 3^33 < 2^53 < 3^34
+		g.powCase(3, y)
+		g.powCase(-3, y)
+		g.powCase(1.5, y)
+		g.powCase(0.75, y)
+	}
+	for _, x := range []float64{5, 7, 1e10, 1e100, 1e-100, 1e300, 1e-300, math.MaxFloat64, 5e-324, 2.2250738585072014e-308, 1.0000000000000002, 0.9999999999999999} {
+		for _, y := range []float64{1, -1, 2, -2, 3, -3, 0.5, -0.5, 1.5, -1.5, 2.5, -2.5} {
+			g.powCase(x, y)
+		}
+		l := math.Log2(x)
+		if math.Abs(l) > 0.001 {
+			for _, t := range []float64{-1074, -1050, -1022, 1023.5, 1024} {
+				y := math.Round(t / l)
+				g.powCase(x, y)
+				g.powCase(x, y+0.5)
+				g.powCase(x, y-1)
+			}
+		}
+	}
+}
+
+// random pow whose exact result aims at the subnormal range or the overflow boundary
+func (g *gen) powBoundaryRandom() {
+	r := g.r
+	x := Pick(r, []float64{2, 3, 5, 7, 10, 0.5, 0.1, 0.2, 1.5, -2, -10, -0.5, 65536, 1024, 1e10, 1e-10, 6, 12, 0.75, 100, 1e5})
+	if r.Intn(4) == 0 {
+		x = float64(r.Intn(4095)+1) / float64(int(1)<<uint(r.Intn(12)))
+		if x == 1 {
+			x = 3
+		}
+	}
+	l := math.Log2(math.Abs(x))
+	t := Pick(r, []float64{-1074, -1075, -1060, -1040, -1022, -1023, 1023, 1024, 1000, -1000})
+	y := math.Round(t/l) + float64(r.Intn(5)-2)
+	if r.Intn(3) == 0 && x > 0 {
+		y += 0.5
+	}
+	g.powCase(x, y)
+}
+
 func runC13(env *Env) {
 	env.Import = "Otto.C13.Corr"
-	env.Rule = "Math: every function over a pool of IEEE specials (NaN, +-0, +-Infinity, +-1, +-0.5 and neighbours, 2^52..2^53 integers, half-integers, subnormals, extremes), their neighbours and random bit patterns, with 0..6 arguments, also as strings/booleans/null/undefined/objects; pow and atan2 table cells and exact rational powers; valueOf call logs; inverse/identity relations, anchors, monotone pairs; isNaN/isFinite over a ToNumber pool; strings over ASCII (reserved, marks, %), 2/3-byte boundaries, BMP, astral and lone surrogates through chains of encode/decode/escape/unescape; decode/unescape on percent-encodings with ill-formed octet sequences and 1-2 random mutations. every function x every boundary in every payload representation (results of |0 >>>0 << ~ >> & ^, lengths, parseInt, literals; Go int/int8..int64/uint..uint64/float32/float64 at their type minima and maxima through vm.Set and vm.Call); non-trivial = distinct case with a special/neighbour argument, an unusual argument count, or a string containing a non-ASCII unit or '%'"
+	env.Rule = "Math: every function over a pool of IEEE specials (NaN, +-0, +-Infinity, +-1, +-0.5 and neighbours, 2^52..2^53 integers, half-integers, subnormals, extremes), their neighbours and random bit patterns, with 0..6 arguments, also as strings/booleans/null/undefined/objects; pow and atan2 table cells and exact rational powers; valueOf call logs; inverse/identity relations, anchors, monotone pairs; isNaN/isFinite over a ToNumber pool; strings over ASCII (reserved, marks, %), 2/3-byte boundaries, BMP, astral and lone surrogates through chains of encode/decode/escape/unescape; decode/unescape on percent-encodings with ill-formed octet sequences and 1-2 random mutations. every function x every boundary in every payload representation (results of |0 >>>0 << ~ >> & ^, lengths, parseInt, literals; Go int/int8..int64/uint..uint64/float32/float64 at their type minima and maxima through vm.Set and vm.Call); pow with integer and half-integer exponents whose exact result is subnormal, at the overflow boundary, or whose x^n overflows while x^-n is representable (exact oracle); every Math and global function with an argument whose ToNumber/ToString throws (5 kinds) at every position, conversions logged; non-trivial = distinct case with a special/neighbour argument, an unusual argument count, or a string containing a non-ASCII unit or '%'"
 	g := &gen{env: env, vm: otto.New(), r: env.Rng}
 	r := env.Rng
 	g.pinned()
 	g.sweeps()
 	g.strSweeps()
 	g.payloadSweeps()
+	g.powSweeps()
+	g.throwSweeps()
 	for env.Count() < env.N {
 		switch k := r.Intn(100); {
+		case k < 1: // abrupt conversions at a random position
+			fn := Pick(r, []int{10, 11, 10, 11, 4, 12, 100, 101, 102, 103, 104, 105, 106, 107, 108, 109, 0, 13, 7})
+			n := r.Intn(4) + 1
+			vals := make([]float64, n)
+			for i := range vals {
+				vals[i] = float64(r.Intn(9) + 1)
+				if (fn == 10 || fn == 11 || fn == 4) && r.Intn(5) == 0 {
+					vals[i] = math.NaN()
+				}
+			}
+			g.throwCase(fn, vals, r.Intn(n), r.Intn(len(throwers)))
+		case k < 2:
+			g.powBoundaryRandom()
 		case k < 4: // payload representations
 			fn := Pick(r, []int{0, 0, 13, 5, 8, 31, 10, 11, 12, 4, 15, 7, 9})
 			n := nominalArity(fn)
